@@ -5,6 +5,7 @@ import (
 	"context"
 	"errors"
 	"sync"
+	"time"
 )
 
 // Store implements storage.IssuanceChainStorage.
@@ -18,13 +19,25 @@ type Store struct {
 	FailGet func(n int) error
 	// Corrupt, when non-nil, may alter a chain on its way out (storage corruption).
 	Corrupt func(key, chain []byte) []byte
+	// Latency > 0 makes FindByKey take that long and return the caller's context error when the context
+	// ends meanwhile (what a database driver does).
+	Latency time.Duration
 }
 
 func New() *Store { return &Store{M: map[string][]byte{}} }
 
 var ErrNotFound = errors.New("memstore: issuance chain not found")
 
-func (s *Store) FindByKey(_ context.Context, key []byte) ([]byte, error) {
+func (s *Store) FindByKey(ctx context.Context, key []byte) ([]byte, error) {
+	if s.Latency > 0 {
+		tm := time.NewTimer(s.Latency)
+		select {
+		case <-tm.C:
+		case <-ctx.Done():
+			tm.Stop()
+			return nil, ctx.Err()
+		}
+	}
 	s.mu.Lock()
 	defer s.mu.Unlock()
 	n := s.GetCalls
